@@ -214,6 +214,24 @@ def gen(tier: str, seed: int) -> list[Case]:
         text, gt = build_annotated_module(rng, i, 150)
         files["src/pk/m1.py"] = text
         gts["pk.m1"] = gt
+        # a module the docstring library cannot load (byte order mark) whose functions follow - in whatever order the
+        # files are listed - a function with a documented Returns section: results must come from its own code only
+        donor = '\n\ndef donor_{k}(n: int = 0) -> tuple[int, str]:\n    """Donor.\n\n    Returns\n    -------\n    major_{k} : int\n        First.\n    label_{k} : str\n        Second.\n    """\n    return n, "x"\n'
+        files["src/pk/__init__.py"] = donor.format(k=0)
+        files["src/pk/inferred.py"] += donor.format(k=1)
+        files["src/pk/m1.py"] += donor.format(k=2)
+        files["src/pk/m2.py"] += donor.format(k=3)
+        legacy = (
+            "def log_it(message):\n    pass\n\n\ndef count_it() -> int:\n    return 1\n\n\ndef pair_it() -> tuple[float, bool]:\n    return 1.0, True\n\n\n"
+            "def guess_it(flag):\n    if flag:\n        return 1.5\n    return 'a'\n\n\nclass Old:\n    def touch(self, n=0):\n        n += 1\n"
+        )
+        files["src/pk/legacy_bom.py"] = {"hex": (b"\xef\xbb\xbf" + legacy.encode()).hex()}
+        gts["pk.legacy_bom"] = {
+            "log_it": {"kind": "no-results", "src": "pass"},
+            "Old/touch": {"kind": "no-results", "src": "n += 1"},
+            "count_it": {"kind": "annotated", "expected": [tt.ref_nf(("int",))], "names": None, "anno": "int"},
+            "pair_it": {"kind": "annotated", "expected": [tt.ref_nf(("float",)), tt.ref_nf(("bool",))], "names": None, "anno": "tuple[float, bool]"},
+        }
         # annotated results keep their docstring names only under a structured style; inferred ones need none
         cases.append(Case(cid=f"c07-{i}", files=files, opts=["--docstyle", "numpydoc"] + (["-nc"] if i % 2 else []), meta={"gt": gts, "nc": bool(i % 2)}, reach=REACH))
     return cases
